@@ -33,21 +33,28 @@ Inductive ending :=
 | EReset         (* abortive end (TCP reset): shutdown() of the server-side socket raises ENOTCONN *)
 | EStale         (* the server-side socket is already closed when close() runs: shutdown() raises *)
 | EError.        (* the server closes the connection after a request it could not process *)
-Inductive event := Call (k c : nat) | Close (k : nat) (how : ending).
+Inductive event :=
+| Call (k c : nat)                     (* a call over connection k that reaches class c (through whichever object id) *)
+| Close (k : nat) (how : ending)
+| Reg (c i : nat) (force : bool)       (* Daemon.register(class c, id i, force) *)
+| Unreg (i : nat).                     (* Daemon.unregister(id i) *)
 Inductive obs :=
 | Served (a : inst)                  (* the call was served by this instance *)
 | Failed (wrongtype : bool)          (* instance creation failed; error reply *)
-| Closed.
+| Closed
+| Admin.                             (* register / unregister done *)
 
 (* what the extractor reads off the source (Gen/GenInstances.v) *)
 Record shape := mk_shape { single_test : ltest;      (* test in the 'single' branch *)
                            session_test : ltest;     (* test in the 'session' branch *)
                            single_locked : bool;     (* lookup + create + store of 'single' inside one lock region *)
-                           close_clears : bool }.    (* SocketConnection.close() empties pyroInstances *)
+                           close_clears : bool;      (* SocketConnection.close() empties pyroInstances *)
+                           tables_private : bool }.  (* no other code in Pyro5 touches the two instance tables *)
 
 Definition ltest_is_none (t : ltest) : bool := match t with TIsNone => true | _ => false end.
 Definition shape_ok (sh : shape) : bool :=
-  ltest_is_none (single_test sh) && ltest_is_none (session_test sh) && single_locked sh && close_clears sh.
+  ltest_is_none (single_test sh) && ltest_is_none (session_test sh) && single_locked sh && close_clears sh &&
+  tables_private sh.
 
 Definition world := nat -> nat -> outcome.
 
@@ -106,10 +113,13 @@ Definition get_instance (sh : shape) (w : world) (modes : nat -> imode) (k c : n
   | MPercall => create w c s
   end.
 
+Definition is_admin (e : event) : bool := match e with Reg _ _ _ | Unreg _ => true | _ => false end.
+
 Definition step_ev (sh : shape) (w : world) (modes : nat -> imode) (e : event) (s : st) : st * obs :=
   match e with
   | Call k c => get_instance sh w modes k c s
   | Close k _ => (if close_clears sh then mk_st (singles s) (clear2 (sessions s) k) (log s) else s, Closed)
+  | Reg _ _ _ | Unreg _ => (s, Admin)     (* instances live per (daemon, class), whatever ids the class is known by *)
   end.
 
 Definition trace := list (event * obs).
@@ -195,7 +205,7 @@ Definition served_in (tr : trace) (cf : config st regs) (c : nat) (a : inst) : P
 Definition script_world (l : list outcome) (dflt : outcome) : world := fun n _ => nth n l dflt.
 
 (* ---- named shapes ---- *)
-Definition shape_fixed : shape := mk_shape TIsNone TIsNone true true.
-Definition shape_falsy : shape := mk_shape TNotTruthy TNotTruthy true true.     (* `if not instance:` *)
-Definition shape_eqnone : shape := mk_shape TEqNone TEqNone true true.          (* `if instance == None:` *)
-Definition shape_unlocked : shape := mk_shape TIsNone TIsNone false true.       (* no create_single_instance_lock *)
+Definition shape_fixed : shape := mk_shape TIsNone TIsNone true true true.
+Definition shape_falsy : shape := mk_shape TNotTruthy TNotTruthy true true true.     (* `if not instance:` *)
+Definition shape_eqnone : shape := mk_shape TEqNone TEqNone true true true.          (* `if instance == None:` *)
+Definition shape_unlocked : shape := mk_shape TIsNone TIsNone false true true.       (* no create_single_instance_lock *)
